@@ -14,6 +14,7 @@ import (
 
 	logutil "github.com/boz/go-logutil"
 	"github.com/boz/kcache"
+	"github.com/boz/kcache/filter"
 	metav1 "k8s.io/apimachinery/pkg/apis/meta/v1"
 
 	"verif/explore"
@@ -56,6 +57,9 @@ type CloseSpec struct {
 type Cfg struct {
 	Name         string
 	Filter       int // controller level filter (hx.MkFilter index)
+	// SlowOn: the controller's filter takes one (virtual) second to decide about objects of this name with a version
+	// above 1 (a slow user predicate): the controller is legitimately busy while watch frames keep arriving
+	SlowOn string
 	Period       time.Duration
 	Pre          []Mut
 	Hist         []Mut
@@ -195,7 +199,7 @@ func (in *Inst) Run() {
 	}
 	ctx, cancel := context.WithCancel(logutil.NewContext(context.Background(), hx.Log))
 	in.cancel = cancel
-	b := kcache.NewBuilder().Context(ctx).Log(hx.Log).Filter(hx.MkFilter(c.Filter)).Client(in.Srv)
+	b := kcache.NewBuilder().Context(ctx).Log(hx.Log).Filter(in.controllerFilter()).Client(in.Srv)
 	b.Lister().RefreshPeriod(c.Period)
 	ctrl, err := b.Create()
 	in.O.CreateErr = err
@@ -408,6 +412,20 @@ func (in *Inst) postAPI() {
 		if n.Err == nil && (n.FSub != nil || n.FCtrl != nil) {
 			rec("Refilter("+n.Path+")", n.Refilter(hx.MkFilter(0)))
 		}
+	})
+}
+
+func (in *Inst) controllerFilter() filter.Filter {
+	f := hx.MkFilter(in.C.Filter)
+	if in.C.SlowOn == "" {
+		return f
+	}
+	name := in.C.SlowOn
+	return filter.FN(func(o metav1.Object) bool {
+		if o.GetName() == name && hx.Ver(o) > 1 {
+			time.Sleep(time.Second)
+		}
+		return f.Accept(o)
 	})
 }
 
